@@ -71,6 +71,18 @@ def run(ctx):
         else:
             bad.append((body, None, "length/wrong"))
             bad.append(("0x" + body, None, "length/wrong"))
+    # wrong-length texts that are otherwise signature-like: digits removed from / added to a printed signature at the
+    # front of r, at the r|s boundary, inside s, keeping a valid v byte at the end
+    for (rr, ss, pp) in sigs[:12]:
+        full = fmt(rr, ss, pp)[2:]
+        for k in (2, 4, 32, 62, 64, 126):
+            for cut in (0, 64 - k // 2, 64, 100):
+                if cut + k <= 128:
+                    short_t = full[:cut] + full[cut + k:]
+                    bad.append((rng.choice(["0x", ""]) + short_t, None, "length/signature-like-short"))
+        bad.append(("0x" + "00" + full, None, "length/signature-like-long"))
+        bad.append(("0x" + full[:64] + "00" + full[64:], None, "length/signature-like-long"))
+    bad += [("0x01021b", None, "length/signature-like-short"), ("01021c", None, "length/signature-like-short"), ("0x1b", None, "length/signature-like-short")]
     for cls, lo, hi in (("corrupt/prefix", 0, 2), ("corrupt/r", 2, 66), ("corrupt/s", 66, 130), ("corrupt/v", 130, 132)):
         for _ in range(12):
             t = list(base)
@@ -154,6 +166,15 @@ def run(ctx):
         r, s, v = int(sg_t[2:66], 16), int(sg_t[66:130], 16), int(sg_t[130:132], 16)
         if t.encode((r, s, v - 27)) != raw:
             ctx.violation("pipeline-encoding", case, short(t.encode((r, s, v - 27))), short(raw))
+    # malformed --signature values must be refused by the command itself (not silently ignored or trimmed)
+    good = so[0].stdout.decode().strip() if so[0].cls == "ok" else "0x" + "11" * 64 + "1b"
+    badvals = ["", " ", "\t", "\n", good + " ", " " + good, good + "\n", "\t" + good, good[:-2], good + "00", "0x", good.upper().replace("0X", "0X"), "0x" + good]
+    bruns = [dict(args=["hash", "transaction", paths[0], "--signature=" + v]) for v in badvals]
+    for v, r in zip(badvals, ctx.cli(bruns)):
+        ctx.count("cli/malformed-signature-option")
+        ctx.distinct(("badsigopt", v))
+        if r.cls != "error" or r.stdout != b"":
+            ctx.violation("cli-malformed-signature-refused", dict(op="hash transaction --signature", value=v), "refused, nothing printed", str(r)[:300])
     ctx.sample(dict(op="pipeline", tx=txs[0][1][:300], signature=so[0].stdout.decode().strip(), hash=hs[0].stdout.decode().strip()))
     for p in paths:
         os.remove(p)
